@@ -114,45 +114,73 @@ theorem Ty.under_under : (t : Ty) → t.under.under = t.under
 theorem Ty.under_of_not_named {t : Ty} (h : t.isNamed = false) : t.under = t := by
   cases t <;> simp_all [Ty.under, Ty.isNamed]
 
-theorem cmpRank_refl (a : Ty) : cmpRank a a = .eq := by
-  cases a <;> simp [cmpRank, cmpBytes_refl]
+/-- the names of a type from the outside in -/
+def Ty.chain : Ty → List Name
+  | .named n x => n :: x.chain
+  | _ => []
 
+/-- lexicographic on name chains; a proper prefix (fewer names) is smaller -/
+def cmpChain : List Name → List Name → Ordering
+  | [], [] => .eq
+  | [], _ :: _ => .lt
+  | _ :: _, [] => .gt
+  | n :: r, m :: s => (cmpBytes n m).then (cmpChain r s)
 
-/-- the outermost name, if any -/
-def Ty.rk : Ty → Option Name
-  | .named n _ => some n
-  | _ => none
+theorem cmpRank_eq : (a b : Ty) → cmpRank a b = cmpChain a.chain b.chain
+  | .named n x, .named m y => by simp only [cmpRank, Ty.chain, cmpChain]; rw [cmpRank_eq x y]
+  | .named _ _, .prim _ | .named _ _, .record _ | .named _ _, .array _ | .named _ _, .set _
+  | .named _ _, .map _ _ | .named _ _, .union _ | .named _ _, .enum _ | .named _ _, .error _ => rfl
+  | .prim _, b | .record _, b | .array _, b | .set _, b | .map _ _, b | .union _, b | .enum _, b | .error _, b => by
+    cases b <;> rfl
 
-def cmpON : Option Name → Option Name → Ordering
-  | some n, some m => cmpBytes n m
-  | some _, none => .gt
-  | none, some _ => .lt
-  | none, none => .eq
+theorem cmpChain_refl : (a : List Name) → cmpChain a a = .eq
+  | [] => rfl
+  | n :: r => by simp [cmpChain, cmpBytes_refl, cmpChain_refl r, Ordering.then]
 
-theorem cmpRank_eq (a b : Ty) : cmpRank a b = cmpON a.rk b.rk := by
-  cases a <;> cases b <;> rfl
+theorem cmpChain_swap : (a b : List Name) → cmpChain b a = (cmpChain a b).swap
+  | [], [] => rfl
+  | [], _ :: _ => rfl
+  | _ :: _, [] => rfl
+  | n :: r, m :: s => by simp only [cmpChain, Ordering.swap_then]; rw [cmpBytes_swap n m, cmpChain_swap r s]
 
-theorem cmpON_STr : (a b c : Option Name) → STr (cmpON a b) (cmpON b c) (cmpON a c)
-  | some n, some m, some k => cmpBytes_STr n m k
-  | some n, some m, none => by simp only [cmpON]; cases cmpBytes n m <;> simp [STr]
-  | some n, none, some k => by simp [cmpON, STr]
-  | some n, none, none => by simp [cmpON, STr]
-  | none, some m, some k => by simp only [cmpON]; cases cmpBytes m k <;> simp [STr]
-  | none, some m, none => by simp [cmpON, STr]
-  | none, none, some k => by simp [cmpON, STr]
-  | none, none, none => by simp [cmpON, STr]
+theorem cmpChain_eq_iff : (a b : List Name) → (cmpChain a b = .eq ↔ a = b)
+  | [], [] => by simp [cmpChain]
+  | [], _ :: _ => by simp [cmpChain]
+  | _ :: _, [] => by simp [cmpChain]
+  | n :: r, m :: s => by simp [cmpChain, Ordering.then_eq_eq, cmpBytes_eq_iff, cmpChain_eq_iff r s]
 
-theorem cmpON_swap : (a b : Option Name) → cmpON b a = (cmpON a b).swap
-  | some n, some m => cmpBytes_swap n m
-  | some _, none => rfl
-  | none, some _ => rfl
-  | none, none => rfl
+theorem cmpChain_STr : (a b c : List Name) → STr (cmpChain a b) (cmpChain b c) (cmpChain a c)
+  | [], [], [] => by simp [cmpChain, STr]
+  | [], [], _ :: _ => by simp [cmpChain, STr]
+  | [], _ :: _, [] => by simp [cmpChain, STr]
+  | [], m :: s, k :: t => by simp only [cmpChain]; cases (cmpBytes m k).then (cmpChain s t) <;> simp [STr]
+  | _ :: _, [], [] => by simp [cmpChain, STr]
+  | _ :: _, [], _ :: _ => by simp [cmpChain, STr]
+  | n :: r, m :: s, [] => by simp only [cmpChain]; cases (cmpBytes n m).then (cmpChain r s) <;> simp [STr]
+  | n :: r, m :: s, k :: t => by
+    simp only [cmpChain]
+    exact STr.then (cmpBytes_STr n m k) (fun _ _ => cmpChain_STr r s t)
+
+theorem cmpRank_refl (a : Ty) : cmpRank a a = .eq := by rw [cmpRank_eq]; exact cmpChain_refl _
 
 theorem cmpRank_swap (a b : Ty) : cmpRank b a = (cmpRank a b).swap := by
-  simp only [cmpRank_eq]; exact cmpON_swap _ _
+  rw [cmpRank_eq, cmpRank_eq]; exact cmpChain_swap _ _
 
 theorem cmpRank_STr (a b c : Ty) : STr (cmpRank a b) (cmpRank b c) (cmpRank a c) := by
-  simp only [cmpRank_eq]; exact cmpON_STr _ _ _
+  rw [cmpRank_eq, cmpRank_eq, cmpRank_eq]; exact cmpChain_STr _ _ _
+
+/-- a type is determined by its underlying type and its chain of names -/
+theorem Ty.eq_of_under_chain : (a b : Ty) → a.under = b.under → a.chain = b.chain → a = b
+  | .named n x, .named m y, hu, hc => by
+    simp only [Ty.chain, List.cons.injEq] at hc
+    simp only [Ty.under] at hu
+    rw [hc.1, Ty.eq_of_under_chain x y hu hc.2]
+  | .named _ _, .prim _, _, hc | .named _ _, .record _, _, hc | .named _ _, .array _, _, hc
+  | .named _ _, .set _, _, hc | .named _ _, .map _ _, _, hc | .named _ _, .union _, _, hc
+  | .named _ _, .enum _, _, hc | .named _ _, .error _, _, hc => by simp [Ty.chain] at hc
+  | .prim _, b, hu, hc | .record _, b, hu, hc | .array _, b, hu, hc | .set _, b, hu, hc
+  | .map _ _, b, hu, hc | .union _, b, hu, hc | .enum _, b, hu, hc | .error _, b, hu, hc => by
+    cases b <;> simp [Ty.chain] at hc <;> simpa [Ty.under] using hu
 
 /-! ### `cmpS` only looks at the underlying type of its first argument -/
 
